@@ -13,8 +13,17 @@ type compileContext struct {
 	ptrIndex          int
 	indent            uint32
 	escapeKey         bool
-	structTypeToCodes map[uintptr]Opcodes
+	structTypeToCodes map[structCodeKey]Opcodes
 	recursiveCodes    *Opcodes
+	recursiveKeys     map[*Opcode]structCodeKey
+}
+
+// structCodeKey identifies the program of a struct type. An addressable struct
+// ( isPtr ) and a non addressable one are encoded differently
+// ( pointer receiver methods of the fields ), so they never share a program.
+type structCodeKey struct {
+	typeptr uintptr
+	isPtr   bool
 }
 
 func (c *compileContext) incIndent() {
